@@ -26,8 +26,10 @@ CLAIMED = {
     "C01": dict(
         technique=ABSINT + " + canonical-form algebra",
         text="Expression.at is interpreted abstractly from source for every concrete class (children = "
-             "variables; arities 0..3, n up to 8 (thorough 30), bases below/at/above 1 and e), for composite and "
-             "shared-subexpression (DAG) instances and through the bare-number entry point, on every sign "
+             "variables; arities 0..5, n up to 8 (thorough 30), bases below/at/above 1 and e), with a Constant of "
+             "each value class or a child of each class its methods inspect in every position, for composite and "
+             "shared-subexpression (DAG) instances, after earlier (also failing) evaluations of the same object at "
+             "other points, and through the bare-number entry point, on every sign "
              "region; the resulting closed-form term must have the same canonical form as the specification "
              "reading of the tree (the 13-row table in spec.py). Equal canonical forms prove equality of the "
              "real functions on the region; a reported violation always carries a numeric counter-instance of "
